@@ -28,18 +28,18 @@ TOL = 1e-9
 
 
 def RULE(tier):
-    return ("cases = (API, register size N, ordered qubit list L, configuration for m=len(L)): all ordered m-lists for N<=%d, "
+    return ("cases = (API, register size N, ordered qubit list L, configuration for m=len(L)): all ordered m-lists for %s, "
             "%s random ordered lists per (N, m) above up to N=8, m<=6; per case one vector-valued pass over the operator basis of "
             "the register and one scalar pass on an entangled Haar-random state, both output modes; non-trivial = list that is "
             "not invariant under the reversal symmetry q[k] = N-1-q[m-1-k] (where a left/right indexing mix-up is visible); "
-            "distinct = distinct (API, N, L, configuration)" % ((4, "6") if tier == "quick" else (5, "40")))
+            "distinct = distinct (API, N, L, configuration)" % (("N<=4 and N=5, m<=3", "8/4/2 (m<=3/4/>=5)") if tier == "quick" else ("N<=5 and N=6, m<=3", "40/10 (m<=4/>=5)")))
 
 
 def lists_for(N, m, tier, rnd):
-    full = 4 if tier == "quick" else 5
-    if N <= full:
+    q = tier == "quick"
+    if N <= 4 or (N == 5 and (m <= 3 or not q)) or (N == 6 and m <= 3 and not q):
         return [list(x) for x in itertools.permutations(range(N), m)]
-    cnt = (6 if m <= 3 else 3 if m == 4 else 2) if tier == "quick" else (40 if m <= 4 else 10)
+    cnt = (8 if m <= 3 else 4 if m == 4 else 2) if q else (40 if m <= 4 else 10)
     base = [list(range(m)), list(range(m))[::-1], [0, N - 1] + list(range(1, m - 1)), [N - 1, 0] + list(range(1, m - 1)),
             list(range(N - m, N)), [1, 0] + list(range(2, m))]
     out = []
@@ -251,7 +251,7 @@ def finalize(total, tier, seed):
         raise Inconclusive("an API was never exercised")
     if not c["reduced density matrices compared"] and not total.violations:
         raise Inconclusive("no reduced density matrix was compared")
-    total.extra["ev_exhaustive_part"] = "all ordered qubit lists for N<=%d; complete register operator basis for N<=5" % (4 if tier == "quick" else 5)
+    total.extra["ev_exhaustive_part"] = "all ordered qubit lists for %s; complete register operator basis for N<=5" % ("N<=4 and N=5, m<=3" if tier == "quick" else "N<=5 and N=6, m<=3")
 
 
 def replay(cj):
